@@ -296,7 +296,7 @@ fn paid_work(rep: &mut Report, p: &Params) {
 
 pub fn run(p: &Params) -> Report {
     let mut rep = Report::new("C11");
-    rep.rule = "cases = (adversarial program family, size): k nested loops (k = 1..22 quick / ..40 thorough) with 0/1/2/65535 iterations and short/long bodies, sibling loops, overrunning bodies, loops with an empty body followed by a cheap or a costly instruction (alone, repeated, inside and at the end of an enclosing loop), jump-heavy code, byte-string and vector self-append doubling (1..70 rounds) followed by each consuming opcode in every operand position, random decodable strings; and coins locked by loop covenants of weight 10^2..10^6 spent through apply_tx at fee multipliers 10^3..2^30 with fees 0, min/2, min-1, min, min+5, where a process-wide instruction counter (hook) must show instructions x multiplier / 65536 <= fee offered. Per case the hooked executor counts executed instructions (must be <= weight), the hooked weight function counts visited opcodes (budget 4n^2+64), a counting allocator measures peak and cumulative bytes during weigh and execute (budget 1 MiB + 4 KiB*(weight+code+heap), cumulative 64x). A family is grown until its first budget excess. Non-trivial = every measured (family,size); distinct by that pair".into();
+    rep.rule = "cases = (adversarial program family, size): k nested loops (k = 1..22 quick / ..40 thorough) with 0/1/2/65535 iterations and short/long bodies, sibling loops, overrunning bodies, loops with an empty body followed by a cheap or a costly instruction (alone, repeated, inside and at the end of an enclosing loop), jump-heavy code, jumps landing inside the body of a loop (zero-iteration loops included) past its Loop instruction, byte-string and vector self-append doubling (1..70 rounds) followed by each consuming opcode in every operand position, random decodable strings; and coins locked by loop covenants of weight 10^2..10^6 spent through apply_tx at fee multipliers 10^3..2^30 with fees 0, min/2, min-1, min, min+5, where a process-wide instruction counter (hook) must show instructions x multiplier / 65536 <= fee offered. Per case the hooked executor counts executed instructions (must be <= weight), the hooked weight function counts visited opcodes (budget 4n^2+64), a counting allocator measures peak and cumulative bytes during weigh and execute (budget 1 MiB + 4 KiB*(weight+code+heap), cumulative 64x). A family is grown until its first budget excess. Non-trivial = every measured (family,size); distinct by that pair".into();
     let journal = p.journal.as_ref().and_then(|j| std::fs::File::create(j).ok());
     let mut rep2 = Report::new("C11");
     std::mem::swap(&mut rep, &mut rep2);
@@ -373,6 +373,24 @@ pub fn run(p: &Params) -> Report {
             v.extend([Op::Loop(65535, 2), Op::Jmp(1), Op::Noop]);
         }
         fams.push(("loop-then-jump-out".into(), n as u64, v));
+    }
+    // jumps that land inside a loop's body without passing its Loop instruction (zero-iteration loops included): the body
+    // then runs as straight-line code, so it has to be part of the weight whatever the loop's count says
+    for k in [1u16, 4, 16, 64, 256, 1000] {
+        for (iters, itag) in [(0u16, "0"), (1, "1"), (3, "3")] {
+            for (jname, jump) in [("jmp", vec![Op::Jmp(1)]), ("bez", vec![pushi(0), Op::Bez(1)]), ("bnz", vec![pushi(1), Op::Bnz(1)])] {
+                // pushi 0; <jump over the Loop instruction>; Loop(iters, 3){ Loop(k, 2){ pushi 1; Add } }
+                let mut v = vec![pushi(0)];
+                v.extend(jump.clone());
+                v.extend([Op::Loop(iters, 3), Op::Loop(k, 2), pushi(1), Op::Add]);
+                fams.push((format!("jump-into-loop-body,iters={},{}", itag, jname), k as u64, v));
+                // the same inside an enclosing loop that repeats the jump
+                let mut v = vec![pushi(0), Op::Loop(k.min(300), (jump.len() + 4) as u16)];
+                v.extend(jump.clone());
+                v.extend([Op::Loop(iters, 3), Op::Loop(50, 2), pushi(1), Op::Add]);
+                fams.push((format!("jump-into-loop-body-inside-loop,iters={},{}", itag, jname), k as u64, v));
+            }
+        }
     }
     let rounds_max = 70;
     for rounds in (1..=rounds_max).filter(|r| *r <= 30 || r % 8 == 6) {
